@@ -27,6 +27,11 @@
    beyond / last byte, other files listed before and after it; the same entry
    point (anonymize_files, main) is run on the tree with and without the
    failing file(s) and TLC compares the digests of every other file.
+6. Relative paths: anonymize_files and main are called with RELATIVE input and
+   output paths (cwd = sandbox; forms d, ./d, d/, d/../d) on trees whose
+   sub-directory and file names repeat the text of the input path (in/main,
+   configs/old_configs, an input name that is a prefix of a sibling); judged
+   by the same one-to-one / content / nothing-else-written clauses.
 """
 import concurrent.futures
 import itertools
@@ -168,7 +173,8 @@ def worker_main(jobfile, outfile, fsroot):
     groups = json.load(open(jobfile, encoding="utf-8"))
     with open(outfile, "w", encoding="utf-8") as fh:
         for g in groups:
-            res = W.run_iso(g, fsroot, common.REPO) if g.get("kind") == "iso" else W.run_group(g, fsroot, common.REPO)
+            fn = {"iso": W.run_iso, "rel": W.run_rel}.get(g.get("kind"), W.run_group)
+            res = fn(g, fsroot, common.REPO)
             fh.write(json.dumps(res) + "\n")
 
 
@@ -177,7 +183,7 @@ def run_groups(groups, nproc=common.NPROC):
     shards = [[] for _ in range(nproc)]
     # balance by number of executions
     loads = [0] * nproc
-    cost = lambda g: (8 * len(g["entries"]) if g.get("kind") == "iso" else
+    cost = lambda g: (8 * len(g["entries"]) if g.get("kind") == "iso" else 2 * len(g["entries"]) if g.get("kind") == "rel" else
                       sum(len(s["entries"]) + 8 * sum(e.startswith("cli") for e in s["entries"]) for s in g["scenarios"]) + 2)
     for g in sorted(groups, key=cost, reverse=True):
         j = loads.index(min(loads))
@@ -337,9 +343,19 @@ def run(pid, tier):
     iso_jobs = [{"kind": "iso", "gid": len(groups) + i, "shape": sh, "offset_class": oc, "feat": ft, "entries": ["dir", "main"]}
                 for i, (sh, oc, ft) in enumerate(combos)]
     iso_by_gid = {j["gid"]: j for j in iso_jobs}
+    # relative-path family: names inside the tree repeat the text of the (relative) input path
+    forms = list(W.REL_FORMS)
+    if thorough:
+        rcombos = [(tr, fm, ft) for tr in sorted(W.REL_TREES) for fm in forms for ft in ("PAWN", "P")]
+    else:
+        # every tree with the bare name (the form whose text re-occurs in the tree) and one decorated form
+        rcombos = [(tr, fm, "PAWN") for i, tr in enumerate(sorted(W.REL_TREES)) for fm in ("plain", forms[1 + i % 3])] + [("T-in", "absolute", "P")]
+    rel_jobs = [{"kind": "rel", "gid": len(groups) + len(iso_jobs) + i, "tree": tr, "form": fm, "feat": ft, "entries": ["dir", "main"]}
+                for i, (tr, fm, ft) in enumerate(rcombos)]
+    rel_by_gid = {j["gid"]: j for j in rel_jobs}
     # ---- 3. real runs ---------------------------------------------------------
     t0 = time.time()
-    outs = run_groups(groups + iso_jobs)
+    outs = run_groups(groups + iso_jobs + rel_jobs)
     tm["real_runs_s"] = round(time.time() - t0, 1)
     traces, meta = [], []
     probes_bad = 0
@@ -347,7 +363,16 @@ def run(pid, tier):
     entries_seen = {}
     iso_stats = {"executions": 0, "unstable_listing_order(skipped)": 0, "other_files_before_failing": 0,
                  "other_files_after_failing": 0, "other_files_between_failing": 0, "other_files_rewritten": 0}
+    rel_execs = 0
     for go in outs:
+        if go.get("kind") == "rel":
+            job = rel_by_gid[go["gid"]]
+            for res_ in go["results"]:
+                rel_execs += 1
+                traces.append(res_["events"])
+                meta.append(("rel", job, res_, None))
+                ck.count(("rel", job["tree"], job["form"], job["feat"], res_["entry"]))
+            continue
         if go.get("kind") == "iso":
             job = iso_by_gid[go["gid"]]
             for res_ in go["results"]:
@@ -393,6 +418,16 @@ def run(pid, tier):
     ck.events += sum(len(t) for t in traces)
     ck.notes["trace_states"] = states
     for ti, (k, clause) in sorted(rejected.items()):
+        if meta[ti][0] == "rel":
+            _, job, res_, _ = meta[ti]
+            ev = traces[ti][k]
+            key = "clause=%s entry=%s family=relative-paths tree=%s form=%s" % (clause, res_["entry"], job["tree"], job["form"])
+            what = ("%s: entry=%s cwd=sandbox input=%r output=%r options=%s tree=%s -> %s %s; files that appeared/changed elsewhere: %s; raised=%s reports=%s" %
+                    (clause, res_["entry"], res_["info"]["input_arg"], res_["info"]["output_arg"], job["feat"], W.REL_TREES[job["tree"]]["files"],
+                     ev.get("id", "end-of-run"), {x: ev[x] for x in ("pre", "out", "ref") if x in ev}, res_["info"]["others_changed"],
+                     res_["info"]["raised"], res_["info"]["reports"][:2]))
+            ck.violation(key, what, {"rel_job": job, "entry": res_["entry"], "events": traces[ti], "failing_event": k, "clause": clause})
+            continue
         if meta[ti][0] == "iso":
             _, job, res_, which = meta[ti]
             ev = traces[ti][k]
@@ -436,6 +471,9 @@ def run(pid, tier):
     ck.notes["phase_wall"] = tm
 
     ck.notes["scenarios"] = gen_counts
+    ck.notes["relative_path_family"] = {"jobs": len(rel_jobs), "executions": rel_execs, "trees": sorted(W.REL_TREES),
+                                        "forms": forms, "what": "anonymize_files and main called with relative input/output paths (cwd = sandbox); "
+                                        "directory and file names repeat the text of the input path; judged by the ordinary per-file and end clauses"}
     ck.notes["isolation_vs_absent_family"] = dict(iso_stats, jobs=len(iso_jobs),
                                                   what="trees with distinct secrets per file, failing file 22-34 KB with one 0xff byte at the stated offset; "
                                                        "baseline = same tree without the failing file(s); entries dir + main")
@@ -464,6 +502,14 @@ def run(pid, tier):
 def replay(pid, path):
     """Re-run the execution stored in a replay file on the real code and have TLC judge it again."""
     case = json.load(open(path))["case"]
+    if "rel_job" in case:
+        job = dict(case["rel_job"], entries=[case["entry"]])
+        res_ = W.run_rel(job, tlc.subdir("fs"), common.REPO)["results"][0]
+        rejected, _ = validate_traces("FilesTrace", "FilesTrace.cfg", [res_["events"]])
+        for ti, (k, clause) in sorted(rejected.items()):
+            print("REPLAY VIOLATION: clause=%s at %s; elsewhere: %s" % (clause, res_["events"][k].get("id", "end-of-run"), res_["info"]["others_changed"]))
+        print("%s replay: 1 trace judged by TLC, %d violations" % (pid, len(rejected)))
+        return 1 if rejected else 0
     if "iso_job" in case:
         job = dict(case["iso_job"], entries=[case["entry"]])
         res_ = W.run_iso(job, tlc.subdir("fs"), common.REPO)["results"][0]
